@@ -32,8 +32,8 @@ def _c(id: str, **kw) -> Dict[str, Any]:
 # first entry of every list = the registered default configuration
 CONFIGS: Dict[str, Dict[str, List[Dict[str, Any]]]] = {
     "Game2048": {
-        "quick": [_c("default"), _c("b3", board_size=3)],
-        "thorough": [_c("default"), _c("b2", board_size=2), _c("b3", board_size=3), _c("b5", board_size=5)],
+        "quick": [_c("default"), _c("b3", board_size=3), _c("b6", board_size=6, deep=["plan", 5000])],
+        "thorough": [_c("default"), _c("b2", board_size=2), _c("b3", board_size=3), _c("b5", board_size=5), _c("b6", board_size=6, deep=["plan", 9000])],
     },
     "GraphColoring": {
         "quick": [_c("default"), _c("n6p5", num_nodes=6, edge_probability=0.5)],
@@ -44,11 +44,11 @@ CONFIGS: Dict[str, Dict[str, List[Dict[str, Any]]]] = {
         ],
     },
     "Minesweeper": {
-        "quick": [_c("default"), _c("r3c7m5", rows=3, cols=7, mines=5), _c("r4c5m3rw", rows=4, cols=5, mines=3, rewards=[2.0, -3.0, -5.0])],
+        "quick": [_c("default"), _c("r3c7m5", rows=3, cols=7, mines=5), _c("r4c5m3rw", rows=4, cols=5, mines=3, rewards=[2.0, -3.0, -5.0]), _c("r5c4m4rwint", rows=5, cols=4, mines=4, rewards=[2, -3, -5])],
         "thorough": [
             _c("default"), _c("r2c2m1", rows=2, cols=2, mines=1), _c("r3c7m5", rows=3, cols=7, mines=5),
             _c("r6c4m23", rows=6, cols=4, mines=23),
-            _c("r4c5m3rw", rows=4, cols=5, mines=3, rewards=[2.0, -3.0, -5.0]),
+            _c("r4c5m3rw", rows=4, cols=5, mines=3, rewards=[2.0, -3.0, -5.0]), _c("r5c4m4rwint", rows=5, cols=4, mines=4, rewards=[2, -3, -5]),
         ],
     },
     "RubiksCube": {
@@ -71,11 +71,15 @@ CONFIGS: Dict[str, Dict[str, List[Dict[str, Any]]]] = {
     },
     "Sudoku": {
         "quick": [_c("default"), _c("veryeasy", gen="very-easy"), _c("tiny5u8", gen="tiny", n=5, db_dtype="uint8")],
-        "thorough": [_c("default"), _c("veryeasy", gen="very-easy"), _c("dummy", gen="dummy"), _c("tiny3", gen="tiny", n=3),
+        "thorough": [_c("default"), _c("veryeasy", gen="very-easy"), _c("veryeasynp", gen="very-easy", np_db=True), _c("dummy", gen="dummy"), _c("tiny3", gen="tiny", n=3),
                      _c("tiny5u8", gen="tiny", n=5, db_dtype="uint8"), _c("tiny4i64", gen="tiny", n=4, db_dtype="int64")],
     },
     "BinPack": {
-        "quick": [_c("default"), _c("r10e12o5", gen="random", max_items=10, max_ems=12, split_same=2, obs_num_ems=5, debug=True)],
+        "quick": [_c("default"), _c("r10e12o5", gen="random", max_items=10, max_ems=12, split_same=2, obs_num_ems=5, debug=True),
+                  # user-defined container sizes (smaller and not proportional to the 20-ft default), CSV and random instances
+                  _c("csvbox", gen="csv", max_ems=30, obs_num_ems=30, container=[1200, 800, 1000], debug=True),
+                  _c("r8e12cube", gen="random", max_items=8, max_ems=12, split_same=2, obs_num_ems=12, container=[700, 700, 700], debug=True),
+                  _c("r16e24s7", gen="random", max_items=16, max_ems=24, split_same=7, obs_num_ems=24, debug=True)],
         "thorough": [
             _c("default"), _c("r10e12o5", gen="random", max_items=10, max_ems=12, split_same=2, obs_num_ems=5, debug=True),
             _c("r10e12o5nonorm", gen="random", max_items=10, max_ems=12, split_same=2, obs_num_ems=5, normalize=False, debug=True),
@@ -83,6 +87,11 @@ CONFIGS: Dict[str, Dict[str, List[Dict[str, Any]]]] = {
             _c("r5e6sparse", gen="random", max_items=5, max_ems=6, split_same=1, obs_num_ems=6, reward="sparse", debug=True),
             _c("r30e40", gen="random", max_items=30, max_ems=40, split_same=3, obs_num_ems=40, debug=True),
             _c("csv", gen="csv", max_ems=30, obs_num_ems=30, debug=True),
+            _c("csvbox", gen="csv", max_ems=30, obs_num_ems=30, container=[1200, 800, 1000], debug=True),
+            _c("r8e12cube", gen="random", max_items=8, max_ems=12, split_same=2, obs_num_ems=12, container=[700, 700, 700], debug=True),
+            _c("csvlong", gen="csv", max_ems=30, obs_num_ems=10, container=[9000, 1500, 1200], normalize=False, debug=True),
+            _c("r16e24s7", gen="random", max_items=16, max_ems=24, split_same=7, obs_num_ems=24, debug=True),
+            _c("r24e30s12", gen="random", max_items=24, max_ems=30, split_same=12, obs_num_ems=30, debug=True),
         ],
     },
     "FlatPack": {
@@ -102,11 +111,11 @@ CONFIGS: Dict[str, Dict[str, List[Dict[str, Any]]]] = {
         ],
     },
     "Knapsack": {
-        "quick": [_c("default"), _c("n10b2sparse", items=10, budget=2.0, reward="sparse"), _c("grid12b2", gen="grid", items=12, budget=2.0)],
+        "quick": [_c("default"), _c("n10b2sparse", items=10, budget=2.0, reward="sparse"), _c("grid12b2", gen="grid", items=12, budget=2.0), _c("n8b3int", items=8, budget=3)],
         "thorough": [
             _c("default"), _c("n3b05", items=3, budget=0.5), _c("n10b2sparse", items=10, budget=2.0, reward="sparse"),
             _c("n10b2", items=10, budget=2.0), _c("n50sparse", items=50, budget=12.5, reward="sparse"),
-            _c("grid12b2", gen="grid", items=12, budget=2.0), _c("grid8b1sparse", gen="grid", items=8, budget=1.0, reward="sparse"),
+            _c("grid12b2", gen="grid", items=12, budget=2.0), _c("grid8b1sparse", gen="grid", items=8, budget=1.0, reward="sparse"), _c("n8b3int", items=8, budget=3),
         ],
     },
     "Tetris": {
@@ -118,22 +127,26 @@ CONFIGS: Dict[str, Dict[str, List[Dict[str, Any]]]] = {
         ],
     },
     "Cleaner": {
-        "quick": [_c("default"), _c("r5c11a2L7", rows=5, cols=11, agents=2, time_limit=7), _c("r4c7a1", rows=4, cols=7, agents=1), _c("r7c4a2", rows=7, cols=4, agents=2)],
+        "quick": [_c("default"), _c("r5c11a2L7", rows=5, cols=11, agents=2, time_limit=7), _c("r4c7a1", rows=4, cols=7, agents=1), _c("r7c4a2", rows=7, cols=4, agents=2),
+                  _c("r6c5a2pint", rows=6, cols=5, agents=2, penalty=1), _c("r5c6a2p0", rows=5, cols=6, agents=2, penalty=0.0)],
         "thorough": [
             _c("default"), _c("r5c5a1", rows=5, cols=5, agents=1), _c("r5c11a2L7", rows=5, cols=11, agents=2, time_limit=7),
             _c("r11c5a3p0", rows=11, cols=5, agents=3, penalty=0.0), _c("r3c3a4L3", rows=3, cols=3, agents=4, time_limit=3),
             _c("r7c9a2L2", rows=7, cols=9, agents=2, time_limit=2), _c("r9c7a2L1", rows=9, cols=7, agents=2, time_limit=1),
             _c("r5c11a2", rows=5, cols=11, agents=2), _c("r4c7a1", rows=4, cols=7, agents=1), _c("r7c4a2", rows=7, cols=4, agents=2),
+            _c("r6c5a2pint", rows=6, cols=5, agents=2, penalty=1), _c("r5c6a2p0", rows=5, cols=6, agents=2, penalty=0.0),
         ],
     },
     "Connector": {
         "quick": [_c("default"), _c("u5a4L7", gen="uniform", grid_size=5, agents=4, time_limit=7),
-                  _c("u5a4rwL20", gen="uniform", grid_size=5, agents=4, time_limit=20, reward_coeffs=[2.0, -0.5])],
+                  _c("u5a4rwL20", gen="uniform", grid_size=5, agents=4, time_limit=20, reward_coeffs=[2.0, -0.5]),
+                  _c("w5a3rwintL15", grid_size=5, agents=3, time_limit=15, reward_coeffs=[3, -1])],
         "thorough": [
             _c("default"), _c("w3a1L3", grid_size=3, agents=1, time_limit=3), _c("u5a4L7", gen="uniform", grid_size=5, agents=4, time_limit=7),
             _c("w5a8L20", grid_size=5, agents=8, time_limit=20), _c("u4a3L2", gen="uniform", grid_size=4, agents=3, time_limit=2),
             _c("w6a4L1", grid_size=6, agents=4, time_limit=1), _c("u6a4", gen="uniform", grid_size=6, agents=4),
             _c("u5a4rwL20", gen="uniform", grid_size=5, agents=4, time_limit=20, reward_coeffs=[2.0, -0.5]),
+            _c("w5a3rwintL15", grid_size=5, agents=3, time_limit=15, reward_coeffs=[3, -1]),
         ],
     },
     "CVRP": {
@@ -146,7 +159,8 @@ CONFIGS: Dict[str, Dict[str, List[Dict[str, Any]]]] = {
     },
     "LevelBasedForaging": {
         "quick": [_c("default"), _c("g6a3f2v2gridL7", grid_size=6, agents=3, food=2, fov=2, grid_obs=True, time_limit=7),
-                  _c("g6a3f2v1L20", grid_size=6, agents=3, food=2, fov=1, time_limit=20)],
+                  _c("g6a3f2v1L20", grid_size=6, agents=3, food=2, fov=1, time_limit=20),
+                  _c("g6a2f2v6rawpenintL15", grid_size=6, agents=2, food=2, fov=6, normalize=False, penalty=1, time_limit=15)],
         "thorough": [
             _c("default"), _c("g5a1f1v1L3", grid_size=5, agents=1, food=1, fov=1, time_limit=3),
             _c("g6a3f2v2gridL7", grid_size=6, agents=3, food=2, fov=2, grid_obs=True, time_limit=7),
@@ -156,6 +170,9 @@ CONFIGS: Dict[str, Dict[str, List[Dict[str, Any]]]] = {
             _c("g5a2f1v2L1", grid_size=5, agents=2, food=1, fov=2, time_limit=1),
             _c("g5a3f1v5L30", grid_size=5, agents=3, food=1, fov=5, time_limit=30),
             _c("g6a3f2v1L20", grid_size=6, agents=3, food=2, fov=1, time_limit=20),
+            # constructor arguments given as Python ints where floats are documented (dtype promotion paths)
+            _c("g6a2f2v6rawpenintL15", grid_size=6, agents=2, food=2, fov=6, normalize=False, penalty=1, time_limit=15),
+            _c("g6a2f2v2gridpenint", grid_size=6, agents=2, food=2, fov=2, grid_obs=True, penalty=2, time_limit=25),
         ],
     },
     "Maze": {
@@ -188,18 +205,22 @@ CONFIGS: Dict[str, Dict[str, List[Dict[str, Any]]]] = {
         ],
     },
     "PacMan": {
-        "quick": [_c("default"), _c("L7", time_limit=7), _c("small12x13L40", maze="small", time_limit=40)],
+        "quick": [_c("default"), _c("L7", time_limit=7), _c("small12x13L40", maze="small", time_limit=40), _c("small12x13L400", maze="small", time_limit=400)],
         "thorough": [_c("default"), _c("L1", time_limit=1), _c("L2", time_limit=2), _c("L3", time_limit=3), _c("L7", time_limit=7), _c("L60", time_limit=60),
-                     _c("small12x13L40", maze="small", time_limit=40), _c("small12x13L3", maze="small", time_limit=3)],
+                     _c("small12x13L40", maze="small", time_limit=40), _c("small12x13L3", maze="small", time_limit=3), _c("small12x13L400", maze="small", time_limit=400)],
     },
     "RobotWarehouse": {
-        "quick": [_c("default"), _c("s2x1h3a2r1q2L7", shelf_rows=2, shelf_cols=1, height=3, agents=2, sensor=1, queue=2, time_limit=7)],
+        "quick": [_c("default"), _c("s2x1h3a2r1q2L7", shelf_rows=2, shelf_cols=1, height=3, agents=2, sensor=1, queue=2, time_limit=7),
+                  # a floor that is much wider than tall (5 x 16) with many agents
+                  _c("s1x5h2a4r1q3L9", shelf_rows=1, shelf_cols=5, height=2, agents=4, sensor=1, queue=3, time_limit=9)],
         "thorough": [
             _c("default"), _c("s2x1h3a2r1q2L7", shelf_rows=2, shelf_cols=1, height=3, agents=2, sensor=1, queue=2, time_limit=7),
             _c("s1x3h3a2r1q2L3", shelf_rows=1, shelf_cols=3, height=3, agents=2, sensor=1, queue=2, time_limit=3),
             _c("s1x3h3a3r2q4", shelf_rows=1, shelf_cols=3, height=3, agents=3, sensor=2, queue=4, time_limit=60),
             _c("s2x1h3a2r1q2L2", shelf_rows=2, shelf_cols=1, height=3, agents=2, sensor=1, queue=2, time_limit=2),
             _c("s1x3h3a1r1q2L1", shelf_rows=1, shelf_cols=3, height=3, agents=1, sensor=1, queue=2, time_limit=1),
+            _c("s1x5h2a4r1q3L9", shelf_rows=1, shelf_cols=5, height=2, agents=4, sensor=1, queue=3, time_limit=9),
+            _c("s1x7h1a5r2q4", shelf_rows=1, shelf_cols=7, height=1, agents=5, sensor=2, queue=4, time_limit=40),
         ],
     },
     "Snake": {
@@ -258,6 +279,37 @@ def cfg_by_id(env: str, cid: str) -> Dict[str, Any]:
 
 _tmpfiles: List[str] = []
 
+# Mutable objects handed to constructors (NumPy databases, ASCII maze lists) are created once per process and shared by every
+# instance built from the same configuration - the ordinary "train env + eval env from one array" pattern. Their content is
+# snapshotted at creation; `shared_args_problems()` reports any later difference (a constructor or a call that writes into
+# its caller's argument).
+_SHARED: Dict[str, Any] = {}
+
+
+def _snap(obj):
+    import numpy as np
+
+    if isinstance(obj, np.ndarray):
+        return ("nd", str(obj.dtype), obj.shape, obj.tobytes())
+    if isinstance(obj, (list, tuple)):
+        return ("seq", tuple(_snap(x) for x in obj))
+    return ("val", repr(obj))
+
+
+def _shared(key: str, make):
+    if key not in _SHARED:
+        obj = make()
+        _SHARED[key] = (obj, _snap(obj))
+    return _SHARED[key][0]
+
+
+def shared_args_problems() -> List[str]:
+    return [f"constructor argument {k!r} was modified in place" for k, (obj, snap) in _SHARED.items() if _snap(obj) != snap]
+
+
+def shared_args_count() -> int:
+    return len(_SHARED)
+
 
 def build(env: str, cfg: Dict[str, Any]):
     """Construct the environment for a configuration dict (no network access needed)."""
@@ -313,11 +365,17 @@ def build(env: str, cfg: Dict[str, Any]):
         if g == "dummy":
             return E.Sudoku(DummyGenerator())
         path = os.path.join(os.path.dirname(sd.__file__), sd.DATABASES["very-easy"])
-        db = np.load(path)
-        if g == "tiny":
-            db = db[: c["n"]]
-        if "db_dtype" in c:  # a user database in another integer dtype (the shipped files are int8)
-            return E.Sudoku(DatabaseGenerator(database=np.asarray(db).astype(c["db_dtype"])))
+
+        def load():
+            db = np.load(path)
+            if g == "tiny":
+                db = db[: c["n"]]
+            # a user database in another integer dtype (the shipped files are int8); always a NumPy array the caller owns
+            return np.array(db).astype(c.get("db_dtype", db.dtype))
+
+        db = _shared(f"sudoku-db|{g}|{c.get('n')}|{c.get('db_dtype')}", load)
+        if "db_dtype" in c or c.get("np_db"):
+            return E.Sudoku(DatabaseGenerator(database=db))
         return E.Sudoku(DatabaseGenerator(database=jnp.asarray(db)))
     if env == "BinPack":
         from jumanji.environments.packing.bin_pack import generator as bg
@@ -325,12 +383,13 @@ def build(env: str, cfg: Dict[str, Any]):
 
         kw = {}
         g = c.get("gen")
+        dims = {"container_dims": tuple(c["container"])} if "container" in c else {}
         if g == "random":
-            kw["generator"] = bg.RandomGenerator(c["max_items"], c["max_ems"], split_num_same_items=c.get("split_same", 5))
+            kw["generator"] = bg.RandomGenerator(c["max_items"], c["max_ems"], split_num_same_items=c.get("split_same", 5), **dims)
         elif g == "toy":
             kw["generator"] = bg.ToyGenerator()
         elif g == "csv":
-            src = bg.RandomGenerator(12, c["max_ems"], split_num_same_items=2)
+            src = bg.RandomGenerator(12, c["max_ems"], split_num_same_items=2, **dims)
             st = src(jax.random.PRNGKey(7))
             fd, path = tempfile.mkstemp(prefix="jmon-binpack-", suffix=".csv")
             os.close(fd)
@@ -338,7 +397,7 @@ def build(env: str, cfg: Dict[str, Any]):
             from jumanji.environments.packing.bin_pack.generator import save_instance_to_csv
 
             save_instance_to_csv(st, path)
-            kw["generator"] = bg.CSVGenerator(path, c["max_ems"])
+            kw["generator"] = bg.CSVGenerator(path, c["max_ems"], **dims)
         for a, b in (("obs_num_ems", "obs_num_ems"), ("normalize", "normalize_dimensions"), ("debug", "debug")):
             if a in c:
                 kw[b] = c[a]
@@ -467,7 +526,7 @@ def build(env: str, cfg: Dict[str, Any]):
         if c.get("maze") == "small":
             from jumanji.environments.routing.pac_man.generator import AsciiGenerator
 
-            return E.PacMan(generator=AsciiGenerator(PACMAN_SMALL_MAZE), **tl)
+            return E.PacMan(generator=AsciiGenerator(_shared("pacman-small-maze", lambda: PACMAN_SMALL_MAZE)), **tl)
         return E.PacMan(**tl)
     if env == "RobotWarehouse":
         from jumanji.environments.routing.robot_warehouse.generator import RandomGenerator
@@ -521,10 +580,78 @@ def cleanup() -> None:
     _tmpfiles.clear()
 
 
+def sokoban_tactical_levels(border: bool, seed: int = 4321):
+    """Levels that *start* in the situations random play hardly ever builds: the agent behind a box whose next cell holds
+    another box / a box already standing on a target / a wall / a target / nothing / the grid edge, and the agent next to a box
+    on a target with a free cell or another box-on-target beyond it - for each of the four directions. 4 boxes, 4 targets."""
+    import numpy as np
+
+    rng = np.random.default_rng(seed + int(border))
+    kinds = ["box", "box_on_target", "wall", "target", "empty", "edge", "bt_then_empty", "bt_then_bt"]
+    moves = [(-1, 0), (0, 1), (1, 0), (0, -1)]
+    fixed, variable = [], []
+    for kind in kinds:
+        for (dr, dc) in moves:
+            for _try in range(200):
+                f = np.zeros((10, 10), np.uint8)
+                v = np.zeros((10, 10), np.uint8)
+                if border:
+                    f[0, :] = f[-1, :] = f[:, 0] = f[:, -1] = 1
+                lo, hi = (1, 8) if border else (0, 9)
+                if kind == "edge":
+                    if border:
+                        break  # with a border wall the edge case is the wall case
+                    # the pushed box stands on the last cell of the grid in direction (dr, dc)
+                    r0 = hi - 1 if dr > 0 else (lo + 1 if dr < 0 else int(rng.integers(lo, hi + 1)))
+                    c0 = hi - 1 if dc > 0 else (lo + 1 if dc < 0 else int(rng.integers(lo, hi + 1)))
+                    r0, c0 = r0 - dr, c0 - dc
+                else:
+                    r0, c0 = int(rng.integers(lo, hi + 1)), int(rng.integers(lo, hi + 1))
+                cells = [(r0 + k * dr, c0 + k * dc) for k in range(4)]
+                need = 2 if kind == "edge" else 3
+                if not all(lo <= r <= hi and lo <= c <= hi for r, c in cells[:need]):
+                    continue
+                a, b, x = cells[0], cells[1], cells[2]
+                v[a] = 3
+                v[b] = 4
+                nb, nt = 1, 0
+                if kind in ("bt_then_empty", "bt_then_bt"):
+                    f[b] = 2
+                    nt += 1
+                if kind == "box":
+                    v[x] = 4
+                    nb += 1
+                elif kind in ("box_on_target", "bt_then_bt"):
+                    v[x] = 4
+                    f[x] = 2
+                    nb += 1
+                    nt += 1
+                elif kind == "wall":
+                    f[x] = 1
+                elif kind == "target":
+                    f[x] = 2
+                    nt += 1
+                used = set(cells[:need])
+                free = [(r, c) for r in range(10) for c in range(10) if f[r, c] == 0 and v[r, c] == 0 and (r, c) not in used]
+                rng.shuffle(free)
+                for (r, c) in free[:6]:
+                    f[r, c] = 1
+                rest = free[6:]
+                for (r, c) in rest[: 4 - nt]:
+                    f[r, c] = 2
+                for (r, c) in rest[4 - nt: 4 - nt + 4 - nb]:
+                    v[r, c] = 4
+                if (v == 4).sum() == 4 and (f == 2).sum() == 4 and ((v == 4) & (f == 2)).sum() < 4:
+                    fixed.append(f)
+                    variable.append(v)
+                    break
+    return fixed, variable
+
+
 def make_sokoban_harness_generator(border: bool, n_levels: int = 24, seed: int = 1234):
     """Harness Sokoban generator: a fixed bank of random 10x10 levels (4 boxes, 4 targets, one agent,
-    ~15% interior walls), with or without a border wall. Subclass of the public Generator; the level
-    is chosen by the reset key. Without border walls pushes against the grid edge become reachable."""
+    ~15% interior walls), with or without a border wall, plus the tactical levels above (half of the draws). Subclass of the
+    public Generator; the level is chosen by the reset key. Without border walls pushes against the grid edge become reachable."""
     import jax
     import jax.numpy as jnp
     import numpy as np
@@ -552,13 +679,17 @@ def make_sokoban_harness_generator(border: bool, n_levels: int = 24, seed: int =
         v[r, c] = 3  # agent
         fixed.append(f)
         variable.append(v)
-    F = jnp.asarray(np.stack(fixed))
-    V = jnp.asarray(np.stack(variable))
+    tf, tv = sokoban_tactical_levels(border)
+    n_rand, n_tac = len(fixed), len(tf)
+    F = jnp.asarray(np.stack(fixed + tf))
+    V = jnp.asarray(np.stack(variable + tv))
 
     class HarnessGenerator(Generator):
         def __call__(self, rng_key):
-            key, idx_key = jax.random.split(rng_key)
-            i = jax.random.randint(idx_key, (), 0, F.shape[0])
+            key, idx_key, kind_key = jax.random.split(rng_key, 3)
+            i_rand = jax.random.randint(idx_key, (), 0, n_rand)
+            i_tac = n_rand + jax.random.randint(idx_key, (), 0, n_tac)
+            i = jnp.where(jax.random.bernoulli(kind_key, 0.5), i_tac, i_rand)
             return State(
                 key=key,
                 fixed_grid=F[i],
